@@ -216,6 +216,9 @@ func (r *renderer) module() string {
 	if hasExt(m) {
 		r.line(1, "extension note { argument text; }")
 	}
+	for _, f := range featuresNamed(m) {
+		r.line(1, "feature %s;", f)
+	}
 	for _, td := range m.Typedefs {
 		r.typedef(1, td)
 	}
@@ -257,6 +260,21 @@ func (r *renderer) module() string {
 	}
 	r.line(0, "}")
 	return r.b.String()
+}
+
+// featuresNamed lists the features that if-feature statements of m name.
+func featuresNamed(m *Mod) []string {
+	set := map[string]bool{}
+	m.AllBodies(func(body []*Node) {
+		WalkNodes(body, func(n *Node, _ *Node) {
+			for _, x := range n.More {
+				if strings.HasPrefix(x, "if-feature ") {
+					set[strings.TrimSuffix(strings.TrimPrefix(x, "if-feature "), ";")] = true
+				}
+			}
+		})
+	})
+	return SortedNames(set)
 }
 
 func hasExt(m *Mod) bool {
@@ -379,13 +397,16 @@ func (r *renderer) body(ind int, body []*Node) {
 func (r *renderer) node(ind int, n *Node) {
 	switch n.Kind {
 	case KUses:
-		if n.When == "" && n.Ext == "" {
+		if n.When == "" && n.Ext == "" && len(n.More) == 0 {
 			r.line(ind, "uses %s;", r.refName(*n.Uses))
 			return
 		}
 		r.line(ind, "uses %s {", r.refName(*n.Uses))
 		if n.When != "" {
 			r.line(ind+1, "when %s;", q(n.When))
+		}
+		for _, x := range n.More {
+			r.line(ind+1, "%s", x)
 		}
 		for _, x := range strings.Split(n.Ext, ",") {
 			if x != "" {
@@ -409,6 +430,9 @@ func (r *renderer) node(ind int, n *Node) {
 	}
 	if n.Desc != "" {
 		r.line(ind+1, "description %s;", q(n.Desc))
+	}
+	for _, x := range n.More {
+		r.line(ind+1, "%s", x)
 	}
 	if n.Key != "" {
 		r.line(ind+1, "key %s;", q(n.Key))
